@@ -45,6 +45,28 @@ CHECKS = {
         note='the fresh graph uses the same kernels (history independence is the claim, correctness of single calls is C03/C04/C05); tolerance 1e-12; '
              'histories <= 10 steps',
         ref='DESIGN.md section 4, C06'),
+    'C11': dict(
+        technique='property-based testing (Hypothesis, concolic program generation): metamorphic relations P directions vs each direction alone, and perturbation of one direction leaves the others unchanged (forward registers and reverse-sweep adjoints)',
+        text='For every operation family and for random compositions, with a different base point per direction: each direction of every '
+             'register equals the single-direction evaluation; changing one direction\'s inputs (and seed) leaves the other directions unchanged; '
+             'the same for input adjoints after a reverse sweep.',
+        note='tolerance 1e-12 (NumPy SIMD kernels round position-dependently); raw eigenvectors excluded (sign convention); P <= 3, D <= 7',
+        ref='DESIGN.md section 4, C11'),
+    'C12': dict(
+        technique='property-based testing (Hypothesis, concolic program generation): metamorphic relation truncate-then-evaluate == evaluate-then-truncate for every D\' < D, forward and reverse; D=1 vs plain NumPy',
+        text='For every operation family and random compositions: every register computed with D\' coefficients equals the first D\' coefficients '
+             'computed with D (all D\' < D), the zeroth coefficient equals plain NumPy execution, and input adjoints of order < D\' from a truncated '
+             'sweep equal those of the full sweep.',
+        note='tolerance 1e-12; D <= 7 forward, <= 5 reverse; raw eigenvectors excluded',
+        ref='DESIGN.md section 4, C12'),
+    'C14': dict(
+        technique='property-based testing (Hypothesis, concolic program generation + aliasing case generators): byte-snapshot invariants of operands/constants/inputs/seeds, differential test aliased vs copied operands',
+        text='Every instruction of generated programs is executed on UTPM operands with byte snapshots of all registers and constants; traced '
+             'programs are recorded, re-evaluated and swept with snapshotted user objects; binary operations with both operands the same object and '
+             'in-place operators with the right operand aliasing the left (same object, reversed view, transpose, broadcast row) are compared with '
+             'independent copies.',
+        note='byte equality for immutability, 1e-13 for aliased-vs-copied; D <= 7, P <= 3',
+        ref='DESIGN.md section 4, C14'),
 }
 
 NOT_BUILT = 'check not built yet in this session (planned, see DESIGN.md section 4)'
